@@ -12,6 +12,8 @@
 -/
 import Golib.Udp.Packs
 import Golib.Udp.ParamKV
+import Golib.Udp.Merge
+import Golib.Udp.Route
 import Golib.Gen.UdpLayouts
 
 namespace C07Gen
@@ -155,5 +157,80 @@ set_option maxRecDepth 100000 in
 theorem process_facts :
     Gen.procFacts = [("UdpTxSqlPack", procModel true), ("UdpTxSqlParamPack", procModel true),
                      ("UdpTxDbcPack", procModel false)] := by decide
+
+/-! ### second deepening round: theorems stated on what the source says, no hand-written table in between
+
+`merge` computes the merged layout from the two transcriptions; `genPack` assembles a `PackT` from the
+regenerated struct fields, Clear() and constructor assignments, type code, pool and merged layout. -/
+
+/-- every transcribed Write / Read pair fits together (a merged layout exists and passes `agree`) -/
+theorem all_agreeM : Gen.layouts.all (fun nwr => agreeM nwr.2.1 nwr.2.2) = true := by decide
+
+/-- **round trip of the transcribed code**: for every pack type of the source there is a layout `m`
+    (computed, not hand-written) such that, for every version, every pack well-formed for `m`, every
+    receiving pack and every rest, the transcribed `Read` run on the bytes of the transcribed `Write`
+    consumes exactly those bytes and leaves `post m ver x st` -/
+theorem source_roundtrip :
+    ∀ nwr ∈ Gen.layouts, ∃ m, merge nwr.2.1 nwr.2.2 = some m ∧
+      ∀ (ver : Int) (x st : Rec) (rest : Bytes), WF m ver x st →
+        P.run (read nwr.2.2 ver st) (write nwr.2.1 ver x ++ rest) = some (post m ver x st, rest) := by
+  intro nwr h
+  have := all_agreeM
+  rw [List.all_eq_true] at this
+  exact merged_roundtrip _ _ (this nwr h)
+
+/-- the merged layouts computed from the source are the model's (reader's and writer's views) -/
+theorem merged_is_model :
+    ∀ t ∈ allPacks, (((Gen.layouts.lookup t.name).bind (fun wr => merge wr.1 wr.2)).map (fun m => (wv m, rv m))) =
+      some (wv t.layout, rv t.layout) := by decide
+
+/-- a pack type as the source describes it -/
+def genPack (name : String) : Option PackT :=
+  match Gen.structFields.lookup name, Gen.clearAssigns.lookup name, Gen.newAssigns.lookup name,
+        Gen.packTypeOf.lookup name, Gen.layouts.lookup name with
+  | some fields, some clear, some fresh, some code, some (w, r) =>
+    match merge w r, Gen.createTable.lookup code with
+    | some m, some row => some { name := name, code := code, layout := m, fields := fields, clear := clear,
+                                 fresh := fresh, pool := row.1 }
+    | _, _ => none
+  | _, _, _, _, _ => none
+
+def genPacks : List PackT := (Gen.packTypeOf.map (·.1)).filterMap genPack
+
+theorem genPacks_complete : genPacks.map (·.name) = Gen.packTypeOf.map (·.1) ∧ genPacks.length = allPacks.length := by
+  decide
+
+/-- Clear() of the source assigns every struct field of the source, for every type -/
+theorem gen_clear_total : ∀ t ∈ genPacks, t.clearTotal = true := by decide
+
+/-- single-pool histories, on the source-derived tables -/
+theorem gen_pool_no_residue (t : PackT) (ht : t ∈ genPacks) (evs : List PoolEv) :
+    ∀ vq ∈ (runPool t evs []).2,
+      (∀ f ∈ t.fieldNames, vq.2 f = (t.clearedRec.set "Ver" (.int vq.1)) f) ∨
+      (∀ f ∈ t.fieldNames, vq.2 f = (t.freshRec.set "Ver" (.int vq.1)) f) :=
+  runPool_spec t (gen_clear_total t ht) evs [] (by intro o ho; cases ho)
+
+/-- the two switches of UdpPack.go as routing maps: type name ↦ code (GetPackType) ↦ pool -/
+def genRouting : Routing where
+  closePool := fun n => match Gen.packTypeOf.lookup n with
+    | some code => (Gen.closeTable.lookup code).getD ""
+    | none => ""
+  createPool := fun n => match Gen.packTypeOf.lookup n with
+    | some code => ((Gen.createTable.lookup code).map (·.1)).getD ""
+    | none => ""
+
+theorem gen_routing_same : ∀ t ∈ genPacks, genRouting.closePool t.name = genRouting.createPool t.name := by decide
+theorem gen_routing_inj :
+    ∀ t ∈ genPacks, ∀ u ∈ genPacks, genRouting.createPool t.name = genRouting.createPool u.name → t.name = u.name := by
+  decide
+theorem gen_names_nodup : (genPacks.map (·.name)).Nodup := by decide
+
+/-- **pool routing of the source**: every history of CreatePack / ClosePack / drops over the pools of
+    all pack types, with arbitrary packs released in any interleaving of types, runs without a
+    type-assertion panic and hands out, for the type asked for, a pack that is on every struct field
+    the type's Clear() constants or constructor constants -/
+theorem gen_route_clean (evs : List MEv) (hev : ∀ e ∈ evs, evTypeIn genPacks e) :
+    ∃ outs, runM genRouting evs (fun _ => []) = some outs ∧ ∀ out ∈ outs, out.1 ∈ genPacks ∧ CleanOut out :=
+  route_clean genRouting genPacks gen_names_nodup gen_routing_same gen_routing_inj gen_clear_total evs hev
 
 end C07Gen
